@@ -131,6 +131,25 @@ func TestVerifC06FieldCanonical(t *testing.T) {
 				x = n
 			}
 		}
+		cls := "two-representatives"
+		if rapid.IntRange(0, 2).Draw(t, "boundary") > 0 {
+			// next to a limb boundary / power of two / multiple of p, and the limb-edge classes of vlib
+			var extra *big.Int
+			cc := uint64(19)
+			if Size == 56 {
+				extra = new(big.Int).Lsh(big.NewInt(1), 224)
+				cc = 1
+			}
+			switch rapid.IntRange(0, 3).Draw(t, "bk") {
+			case 0:
+				x, cls = vlib.Limbs(t, Size/8, cc, "limbs"), "limb-edge"
+			case 1:
+				x, cls = vlib.NearModulus(t, p, 8*Size, "near"), "near-modulus"
+			default:
+				x, cls = prodgen.Boundary(t, Size/8, cc, p, extra, "b")
+			}
+			v = new(big.Int).Mod(x, p)
+		}
 		var e Elt
 		copy(e[:], vlib.LE(x, Size))
 		want := vlib.LE(v, Size)
@@ -161,7 +180,15 @@ func TestVerifC06FieldCanonical(t *testing.T) {
 			if !check("Modp", m[:]) || !check("ToBytes", out) {
 				return
 			}
+			iz := e
+			var isz bool
+			c06FpWith(bmi, func() { isz = IsZero(&iz) })
+			if isz != (v.Sign() == 0) {
+				vlib.Report(t, "C06/whitebox/fp448/IsZero-wrong", fmt.Sprintf("x=%x IsZero=%v", x, isz))
+				return
+			}
 		}
+		vlib.Class(sub, "x="+cls)
 		vlib.NonTrivial(sub, "", x.Bytes())
 	})
 }
